@@ -28,6 +28,7 @@ class Obl:
         self.funcs = []
         self.text = {}
         self.opts = {}
+        self.also = []
 
     @property
     def prop(self):
@@ -59,6 +60,8 @@ def parse_header(path):
             cur.reach += [x.strip() for x in v.split(",") if x.strip()]
         elif k == "funcs":
             cur.funcs += [x.strip() for x in v.split(";") if x.strip()]
+        elif k == "also":
+            cur.also += [x.strip() for x in v.replace(",", " ").split() if x.strip()]
         elif k == "opts":
             for kv in v.split():
                 a, b = kv.split("=", 1)
@@ -77,7 +80,7 @@ def discover(prop=None):
         for f in sorted(fn):
             if f.endswith((".cpp", ".c")):
                 for o in parse_header(os.path.join(dp, f)):
-                    if prop is None or o.prop == prop:
+                    if prop is None or o.prop == prop or prop in o.also:
                         out.append(o)
     return out
 
@@ -212,7 +215,7 @@ def run_obligation_file(path, tier, seed, only=None, verbose=False):
     from .symval import EngineError
     logs = []
     log = (lambda *a: (logs.append(" ".join(str(x) for x in a)), verbose and print(*a, file=sys.stderr)))
-    obls = [o for o in parse_header(path) if (tier == "thorough" or o.tier == "Q") and (only is None or o.id in only)]
+    obls = [o for o in parse_header(path) if (tier == "thorough" or o.tier == "Q") and (not only or o.id in only)]
     if not obls:
         return []
     results = []
